@@ -34,8 +34,8 @@ import re._constants as _rc
 
 import z3
 
-from engine import sstr, symex
-from engine.sstr import SStr, PUA0, PUA1, _and, _or, _not, ch_eq, ch_in, _case1, _st, has_sym, _isstr, _chars
+from engine import sstr
+from engine.sstr import SStr, PUA0, PUA1, _and, _or, _not, ch_eq, ch_in, _case1, _st, has_sym
 from engine.symex import HarnessError
 
 _I, _A, _M, _S = _re.IGNORECASE, _re.ASCII, _re.MULTILINE, _re.DOTALL
